@@ -11,6 +11,13 @@
 #include <string.h>
 
 typedef struct { const char *op; int w; int kind; } opw;
+/* a timer; one in eight carries the signal value 0 (CMB_PROCESS_SUCCESS): the header allows any value, and a timer that ends a yield
+ * "successfully" is a natural use.  Third argument 1 = signal 0. */
+static void add_tm(plan *p, vrng *r, const char *op, int64_t i, int64_t d)
+{
+    if (vrng_chance(r, 1, 8)) plan_add(p, op, 3, i, d, (int64_t)1); else plan_add(p, op, 2, i, d);
+}
+
 enum { K_HOLD = 1, K_TADD, K_TSET, K_TCANCEL, K_TCLEAR, K_YIELD, K_INTR, K_STOP, K_PRIO, K_RESUME, K_START, K_WAITP, K_WAITE,
        K_SCHEV, K_CANEV, K_EXIT, K_STOPSELF, K_ACQ, K_REL, K_PRE, K_PACQ, K_PPRE, K_PREL, K_BPUT, K_BGET, K_QPUT, K_QGET,
        K_KPUT, K_KGET, K_KCAN, K_KREP, K_CWAIT, K_CSIG, K_SETVAR, K_CCAN, K_CREM, K_GCAN, K_GREM, K_RECON, K_RECOFF, K_BLOCK_RES, K_BLOCK_POOL, K_REPORT, K_OBS, K_WAITT };
@@ -246,7 +253,7 @@ void procs_gen(plan *p, uint64_t seed, const char *cfg)
         int emitted = 0;
         const int64_t I = i;
         if (i == role_a) { plan_add(p, "HOLD", 2, I, role_d); emitted++; if (vrng_chance(&r, 1, 2)) ns = emitted; }
-        if (i == role_w) { plan_add(p, vrng_chance(&r, 1, 4) ? "TSET" : "TADD", 2, I, role_d); plan_add(p, "WAITP", 2, I, (int64_t)role_a); plan_add(p, "HOLD", 2, I, (int64_t)4); emitted += 3; }
+        if (i == role_w) { add_tm(p, &r, vrng_chance(&r, 1, 4) ? "TSET" : "TADD", I, role_d); plan_add(p, "WAITP", 2, I, (int64_t)role_a); plan_add(p, "HOLD", 2, I, (int64_t)4); emitted += 3; }
         if (i == role_x) { plan_add(p, "HOLD", 2, I, role_d); plan_add(p, "START", 2, I, (int64_t)role_a); emitted += 2; }
         if (i == role_w2) { plan_add(p, "HOLD", 2, I, role_d); if (vrng_chance(&r, 1, 2)) { plan_add(p, "HOLD", 2, I, (int64_t)0); emitted++; } plan_add(p, "WAITP", 2, I, (int64_t)role_a); emitted += 2; }
         if (rec && i == 0) {
@@ -260,11 +267,11 @@ void procs_gen(plan *p, uint64_t seed, const char *cfg)
             const int64_t j = (int64_t)vrng_below(&r, (uint64_t)np);
             switch (tab[k].kind) {
                 case K_HOLD: plan_add(p, "HOLD", 2, I, g_dt(&r, tmode)); break;
-                case K_TADD: plan_add(p, "TADD", 2, I, g_dt(&r, tmode)); break;
-                case K_TSET: plan_add(p, "TSET", 2, I, g_dt(&r, tmode)); break;
+                case K_TADD: add_tm(p, &r, "TADD", I, g_dt(&r, tmode)); break;
+                case K_TSET: add_tm(p, &r, "TSET", I, g_dt(&r, tmode)); break;
                 case K_TCANCEL: plan_add(p, "TCANCEL", 2, I, (int64_t)vrng_below(&r, 4)); break;
                 case K_TCLEAR: plan_add(p, "TCLEAR", 1, I); break;
-                case K_YIELD: if (vrng_chance(&r, 2, 3)) { plan_add(p, "TADD", 2, I, g_dt(&r, tmode)); emitted++; } plan_add(p, "YIELD", 1, I); break;
+                case K_YIELD: if (vrng_chance(&r, 2, 3)) { add_tm(p, &r, "TADD", I, g_dt(&r, tmode)); emitted++; } plan_add(p, "YIELD", 1, I); break;
                 case K_RESUME: plan_add(p, "RESUME", 2, I, j); break;
                 case K_INTR: plan_add(p, "INTR", 3, I, j, vrng_chance(&r, 1, 2) ? prio[j] + vrng_range(&r, -1, 1) : g_prio(&r, 2)); break;
                 case K_STOP: plan_add(p, "STOP", 2, I, j); break;
@@ -283,7 +290,7 @@ void procs_gen(plan *p, uint64_t seed, const char *cfg)
                 case K_BLOCK_RES: {
                     /* the canonical acquire - hold - release block, sometimes re-acquiring at once */
                     const int64_t rr = (int64_t)vrng_below(&r, (uint64_t)nres);
-                    if (vrng_chance(&r, 1, 3)) { plan_add(p, "TADD", 2, I, g_dt(&r, tmode)); emitted++; }
+                    if (vrng_chance(&r, 1, 3)) { add_tm(p, &r, "TADD", I, g_dt(&r, tmode)); emitted++; }
                     plan_add(p, vrng_chance(&r, 1, 5) ? "PRE" : "ACQ", 2, I, rr);
                     plan_add(p, "HOLD", 2, I, g_dt(&r, tmode));
                     plan_add(p, "REL", 2, I, rr);
@@ -295,14 +302,14 @@ void procs_gen(plan *p, uint64_t seed, const char *cfg)
                 case K_PREL: plan_add(p, "PREL", 3, I, (int64_t)vrng_below(&r, (uint64_t)npool), (int64_t)vrng_below(&r, 6)); break;
                 case K_BLOCK_POOL: {
                     const int64_t pp = (int64_t)vrng_below(&r, (uint64_t)npool);
-                    if (vrng_chance(&r, 1, 3)) { plan_add(p, "TADD", 2, I, g_dt(&r, tmode)); emitted++; }
+                    if (vrng_chance(&r, 1, 3)) { add_tm(p, &r, "TADD", I, g_dt(&r, tmode)); emitted++; }
                     plan_add(p, vrng_chance(&r, 1, 4) ? "PPRE" : "PACQ", 3, I, pp, (int64_t)vrng_below(&r, 6));
                     plan_add(p, "HOLD", 2, I, g_dt(&r, tmode));
                     if (vrng_chance(&r, 1, 2)) { plan_add(p, "PACQ", 3, I, pp, (int64_t)vrng_below(&r, 6)); emitted++; }
                     plan_add(p, "PREL", 3, I, pp, (int64_t)(vrng_chance(&r, 1, 2) ? 5 : vrng_below(&r, 6)));
                     emitted += 2;
                     break; }
-                case K_BPUT: plan_add(p, "BPUT", 3, I, (int64_t)vrng_below(&r, (uint64_t)nbuf), huge && vrng_chance(&r, 2, 3) ? (int64_t)(101 + vrng_below(&r, 7)) : vrng_chance(&r, 1, 14) ? (int64_t)(100 + vrng_below(&r, 4)) : (int64_t)(1 + vrng_below(&r, 5))); break;
+                case K_BPUT: plan_add(p, "BPUT", 3, I, (int64_t)vrng_below(&r, (uint64_t)nbuf), huge && vrng_chance(&r, 2, 3) ? (int64_t)(101 + vrng_below(&r, 7)) : vrng_chance(&r, 1, 14) ? (int64_t)(100 + vrng_below(&r, 4)) : (int64_t)vrng_below(&r, 6)); break;   /* 0..5: a put of nothing is a put */
                 case K_BGET: plan_add(p, "BGET", 3, I, (int64_t)vrng_below(&r, (uint64_t)nbuf), huge && vrng_chance(&r, 2, 3) ? (int64_t)(101 + vrng_below(&r, 7)) : vrng_chance(&r, 1, 14) ? (int64_t)(100 + vrng_below(&r, 4)) : (int64_t)vrng_below(&r, 6)); break;
                 case K_QPUT: plan_add(p, "QPUT", 3, I, (int64_t)vrng_below(&r, (uint64_t)noq), vrng_chance(&r, 1, 10) ? (int64_t)(1 + vrng_below(&r, 2)) : (int64_t)0); break;
                 case K_QGET: plan_add(p, "QGET", 2, I, (int64_t)vrng_below(&r, (uint64_t)noq)); break;
